@@ -283,7 +283,7 @@ pub fn run(ctx: &Ctx) -> (Outcome, String, Option<bool>) {
     let out = crate::runner::run_sharded(
         ctx,
         "stake-histories",
-        ctx.scale(150, 2500),
+        ctx.scale(1200, 12000),
         move || arb_stake_plan(&prof),
         |plan, st, shard| {
             st.eval();
